@@ -1,15 +1,41 @@
-Require Import Base.Bytes Net.Frame Net.FrameProofs Net.Framed Net.FramedProofs Props.C06.
+Require Import Base.Bytes Net.Frame Net.FrameProofs Net.Framed Net.FramedProofs Net.ConvProofs Net.Async Net.AsyncProofs Net.AsyncConvProofs.
+Require Import Props.C06.
+Local Open Scope N_scope.
 Check c06_delivered_is_prefix : forall ws buf d r ws',
   write_all ws buf = (d, r, ws') -> exists rest, buf = d ++ rest /\ (r = WOk -> rest = []).
-Check c06_success_means_whole_frame : forall ws buf d ws', write_all ws buf = (d, WOk, ws') -> d = buf.
+Check c06_success_means_whole_frame : forall ws buf d ws',
+  write_all ws buf = (d, WOk, ws') -> d = buf.
 Check c06_completes_under_fair_transport : forall ws buf,
   forallb no_fail ws = true -> (length buf <= length (filter accepts ws))%nat ->
   exists ws', write_all ws buf = (buf, WOk, ws').
-Check c06_sequence_contiguous_in_order : forall frames ws d, write_seq ws frames = (d, true) -> d = concat frames.
+Check c06_sequence_contiguous_in_order : forall frames ws d,
+  write_seq ws frames = (d, true) -> d = concat frames.
 Check c06_written_unit_is_one_frame : forall packet unparse m (p : packet) fr,
   encode packet unparse m p = Ok fr -> wf_frame m fr /\ (Nat.modulo (length fr) (mul m) = 0)%nat.
+Check c06_conversation_writes :
+  forall (packet : Type) (parse : bytes -> res packet) (ver_of : packet -> option N)
+         (is_keepalive : packet -> bool) (version : N) (m : mode) (verify : bool) (pong : bytes),
+  forall ops buf tr,
+    exists rest, map snd (filter (from_write packet) (conv packet parse ver_of is_keepalive version m verify pong ops buf tr)) ++ rest
+                 = map Wrote (frames_of ops).
+Check c06_writes_never_split_a_reply :
+  forall (packet : Type) (parse : bytes -> res packet) (ver_of : packet -> option N)
+         (is_keepalive : packet -> bool) (version : N) (m : mode) (verify : bool) (pong : bytes),
+  forall fuel c s rs ws cancels wsched acc done,
+    forallb no_fail ws = true ->
+    Inv packet parse ver_of is_keepalive version m verify pong c s ->
+    WInv packet is_keepalive pong s (done ++ acc) ->
+    conv_ok packet is_keepalive pong done (aconv packet parse ver_of is_keepalive version m verify pong fuel c s rs ws cancels wsched acc).
+Check c06_caller_frames_in_call_order :
+  forall (packet : Type) (parse : bytes -> res packet) (ver_of : packet -> option N)
+         (is_keepalive : packet -> bool) (version : N) (m : mode) (verify : bool) (pong : bytes),
+  forall fuel c s rs ws cancels wsched acc,
+    is_prefix (flat_map (user_frame packet) (aconv packet parse ver_of is_keepalive version m verify pong fuel c s rs ws cancels wsched acc)) (concat wsched).
 Print Assumptions c06_delivered_is_prefix.
 Print Assumptions c06_success_means_whole_frame.
 Print Assumptions c06_completes_under_fair_transport.
 Print Assumptions c06_sequence_contiguous_in_order.
 Print Assumptions c06_written_unit_is_one_frame.
+Print Assumptions c06_conversation_writes.
+Print Assumptions c06_writes_never_split_a_reply.
+Print Assumptions c06_caller_frames_in_call_order.
